@@ -131,15 +131,20 @@ def render(rng, f, unit, pns, record, unless=False, consts=None):
     return "out = " + go(f)
 
 
-def run_monitor(monitor, text, vs, data, n, unit, period, punit, consts=()):
+def run_monitor(monitor, text, vs, data, n, unit, period, punit, consts=(), limit=8.0):
     per = int(period) if period.denominator == 1 else float(period)
     # the baseline rendering of the same durations evaluates in milliseconds: a rendering that does not
     # come back within 8 s (e.g. a bound blown up by a wrong unit) is reported as an outcome, not a harness error
-    kw = dict(unit=unit, sampling=(per, punit, 0.1), limit=8.0, timeout_is_outcome=True, consts=list(consts))
+    kw = dict(unit=unit, sampling=(per, punit, 0.1), limit=limit, timeout_is_outcome=True, consts=list(consts))
     if monitor == "offd":
         o = impl.eval_offline_discrete(text, vs, data, n, **kw)
-        return o if o[0] != "ok" else ("ok", [p[1] for p in o[1]])
-    return impl.run_online_discrete(text, vs, data, n, pastify=(monitor == "past"), **kw)
+        o = o if o[0] != "ok" else ("ok", [p[1] for p in o[1]])
+    else:
+        o = impl.run_online_discrete(text, vs, data, n, pastify=(monitor == "past"), **kw)
+    if o[0] == "other" and len(o) > 1 and o[1] == "Timeout" and limit < 60.0:
+        # a busy machine is not an outcome: the call is repeated once with a generous limit before "does not return" is believed
+        return run_monitor(monitor, text, vs, data, n, unit, period, punit, consts, limit=90.0)
+    return o
 
 
 def gen_case(rng):
@@ -184,6 +189,8 @@ def check_case(ctx, case, rng):
         base_text = base_text.replace(" until[", " unless[")
     base = run_monitor(mon, base_text, vs, data, n, "s", Fraction(1), "s")
     rep = {"monitor": mon, "formula": F.to_proto(f), "data": data, "n": n, "baseline_spec": base_text, "baseline": base}
+    if base[0] == "other" and base[1] == "Timeout":
+        raise common.HarnessError("baseline rendering did not return within 90 s (machine overloaded?): " + base_text)
     if base[0] != "ok":
         return Violation("baseline rendering raised %r: %s" % (base[1:], base_text), rep, stream="units"), None
     if disc.nontrivial(base[1]):
@@ -284,6 +291,8 @@ def check_same_numerals(ctx, rng):
     rep = {"kind": "two-renderings", "monitor": mon, "spec_a": text_a, "spec_b": text_b, "cfg_a": [cfg[0], str(cfg[1]), cfg[2]],
            "cfg_b": [cfg[0], str(cfg[1]), cfg[2]], "data": data, "n": n, "impl_a": a, "impl_b": b}
     ctx.nontrivial.add((mon, text_a, str(data)))
+    if b[0] == "other" and b[1] == "Timeout":
+        raise common.HarnessError("the rendering in the finer unit did not return within 90 s (machine overloaded?): " + text_b)
     if a[0] != "ok" or b[0] != "ok" or not same_vals(a[1], b[1]):
         return Violation("%s monitor (unit %s, period 1 %s): two renderings with the same durations differ: %s gives %r, %s gives %r"
                          % (mon, fine, fine, text_a, a[:2], text_b, b[:2]), rep, stream="units/same-numerals")
